@@ -212,23 +212,24 @@ def create_redist_dict(
     group, group_size, group_resource = grp_info(dim)
     assert group_resource >= group_size, (group_resource, group_size)
     group_resource -= group_size
-    total_score = sum(score_dict[key] for key in group)
     sorted_scores = sorted(
-        [(key, score_dict[key]) for key in group],
+        [(key, float(score_dict[key])) for key in group],
         key=lambda x: x[1],
         reverse=True,
     )
     realloc = {}
-    for pair in sorted_scores:
+    for i, pair in enumerate(sorted_scores):
+      # Total score of the axes not allocated yet, summed from the smallest
+      # score up: a running `total -= score` cancels catastrophically when
+      # scores differ by many orders of magnitude.
+      total_score = sum(score for _, score in reversed(sorted_scores[i:]))
       if is_outlier(pair[1], total_score, group_resource, dim - 1):
         realloc.update({pair[0]: dim})
         group_resource -= (dim - 1)
-        total_score -= pair[1]
       else:
         unit_rsc = group_resource / total_score if total_score else 0.0
         realloc.update({pair[0]: rd(pair[1] * unit_rsc)})
         group_resource -= (rd(pair[1] * unit_rsc) - 1)
-        total_score -= pair[1]
 
     for key in realloc:
       assert realloc[key] <= dim, (key, realloc[key], dim)
